@@ -58,6 +58,26 @@ def shiftSpec {α : Type} (vs : List (Option α)) (k : Int) : List (Option α) :
     let j : Int := (i : Int) - k
     if j < 0 then none else (vs[j.toNat]?).getD none)
 
+
+/-- `merge(mask, truthy, falsy)`: row `i` is the *next unused* row of `truthy` when `mask[i]`
+is a valid `true`, else the next unused row of `falsy` (`none` = an operand ran out) -/
+def mergeSpec {α : Type} : List (Option Bool) → List α → List α → Option (List α)
+  | [], _, _ => some []
+  | some true :: ms, t :: ts, fs => (mergeSpec ms ts fs).map (t :: ·)
+  | some true :: _, [], _ => none
+  | _ :: ms, ts, f :: fs => (mergeSpec ms ts fs).map (f :: ·)
+  | _ :: _, _, [] => none
+
+/-- `merge_n(values, indices)`: index `some k` takes the next unused row of `values[k]`,
+`none` gives a null row; `cursors[k]` = rows of array `k` already used -/
+def mergeNSpec {α : Type} (arrs : List (List (Option α))) : List (Option Nat) → List Nat → Option (List (Option α))
+  | [], _ => some []
+  | none :: is, cur => (mergeNSpec arrs is cur).map (none :: ·)
+  | some k :: is, cur =>
+    match (arrs[k]?).bind (fun a => a[cur.getD k 0]?) with
+    | some row => (mergeNSpec arrs is (cur.set k (cur.getD k 0 + 1))).map (row :: ·)
+    | none => none
+
 /-! ### batch coalescer -/
 
 /-- the operations of a `BatchCoalescer` history; a batch is its list of rows -/
